@@ -5,6 +5,8 @@ Proofs/MarkerShape.lean, Proofs/MarkerPrint.lean).
 -/
 import PoetryVerif.Proofs.MarkerAlgSoundOps
 import PoetryVerif.Proofs.MarkerShape
+import PoetryVerif.Proofs.MarkerPrint
+import PoetryVerif.Proofs.MarkerEval
 
 set_option linter.unusedSimpArgs false
 set_option linter.unusedVariables false
@@ -51,8 +53,8 @@ example : ∃ r, LeafSpec (leafEval Ex.envAB) Ex.G0 ∧
   marker_eval [Ex.sA, Ex.sNA, Ex.sB, Ex.i1, Ex.i2, Ex.i3, Ex.i4, Ex.i5, Ex.u1, Ex.u2, Ex.u3, Ex.u4, Ex.u5]
 
 /-- **The conjunctive normal form has the promised shape** — every fuel, every recursion stack, EVERY
-marker (no hypothesis on the leaves): the result of `cnf` is Any, Empty, a leaf, a disjunction of leaves,
-or a conjunction whose members are leaves or disjunctions of leaves (`M.isCnf`). -/
+marker (no hypothesis on the leaves): the result of `cnf` is Any, Empty, a leaf, a non-empty disjunction of
+leaves, or a non-empty conjunction whose members are leaves or non-empty disjunctions of leaves (`M.isCnf`). -/
 theorem cnf_shape {m r : M} (h : cnf fuel stk m = .ok r) : r.isCnf = true := cnf_isCnf h
 
 example : ∃ r, cnf 60 [] (.union [.multi [.leaf (.single Ex.sA), .leaf (.single Ex.sB)], .leaf (.single Ex.sNA)]) = .ok r ∧
@@ -85,5 +87,93 @@ theorem multiOf_cube_shape {ms : List M} {r : M} (hm : ∀ x ∈ ms, x.isQIn = t
 
 theorem unionOf_dnf_shape {ms : List M} {r : M} (hm : ∀ x ∈ ms, x.isDnf = true)
     (h : unionOf fuel stk ms = .ok r) : r.isDnf = true := unionOf_dnf mergeLeaves_shape hm h
+
+/-! ### marker text -/
+
+/-- **Printing then re-reading preserves meaning (tree level)** — for every marker over good leaves whose
+`__str__` is a marker text (`M.toSyn m = some t`: no Any/Empty/empty compound inside): `str(m)` is exactly the
+text of the grammar tree `t` (parentheses only around union-like members of a `MultiMarker`), `_compact_markers`
+accepts `t`, and the marker it rebuilds is true in exactly the environments `m` is.  This is where the
+parenthesisation of `MultiMarker.__str__` is justified against the precedence `_compact_markers` implements.
+Hypotheses: the leaf facts `LeafSpec` and, per leaf, `LeafPrintOK` (re-reading the leaf's own text gives its
+truth value back; for a `SingleMarker` that is constructor idempotence, `leafPrintOK_single`). -/
+theorem print_reparse_partial {ev : Leaf → Bool} (S : LeafSpec ev G) (hL : ∀ l, G l → LeafPrintOK ev G l)
+    {m : M} {t : Syn} (hg : M.Good G m) (h : M.toSyn m = some t) :
+    M.toStr m = .ok t.text ∧ ∃ m', compactRaw t = .ok m' ∧ M.Good G m' ∧ M.sem ev m' = M.sem ev m :=
+  M.print_reparse S hL hg h
+
+/-- the three example leaves re-read to themselves -/
+theorem ex_leafPrintOK : ∀ l, Ex.G0 l → LeafPrintOK (leafEval Ex.envAB) Ex.G0 l := by
+  intro l hl
+  rcases hl with rfl | rfl | rfl
+  · exact leafPrintOK_single (Or.inl rfl) rfl
+  · exact leafPrintOK_single (Or.inr (Or.inl rfl)) rfl
+  · exact leafPrintOK_single (Or.inr (Or.inr rfl)) rfl
+
+/-- `sys_platform == "a" and (os_name != "b" or sys_platform != "a")`: the tree, its text, and poetry-core's
+own grammar reading the text back to the same tree (compared through the structural dump) -/
+example : ∃ t, M.toSyn (.multi [.leaf (.single Ex.sA), .union [.leaf (.single Ex.sB), .leaf (.single Ex.sNA)]]) = some t ∧
+    t.text = "sys_platform == \"a\" and (os_name != \"b\" or sys_platform != \"a\")" ∧
+    (parseText t.text).toOption.map Syn.dump = some t.dump := ⟨_, rfl, by decide +kernel, by decide +kernel⟩
+
+/-- **The token stream of a marker text parses back to its tree**: recursive descent for
+`marker: _atom (BOOL_OP _atom)*`, `_atom: item | "(" marker ")"` on the tokens of any grammar tree returns
+that tree and consumes the whole input (all trees, unbounded depth). -/
+theorem print_tokens_parse (t : Syn) : parseSynT (t.size + 1) t.toks = some (t, []) :=
+  parseToks_roundtrip t
+
+example : (Syn.more (.item "os_name" "==" "nt" false) false
+    (.one (.paren (.more (.item "extra" "==" "a" false) true (.one (.item "os_name" "!=" "x" true)))))).toks =
+    [.item "os_name" "==" "nt" false, .and, .lpar, .item "extra" "==" "a" false, .or,
+     .item "os_name" "!=" "x" true, .rpar] := rfl
+
+/-- **The printed text means the same to the PEP 508 reference** (`Spec.Pep508.evalSyn`, C06's formalisation):
+for a printable marker whose tree is coherent and whose items the reference evaluates like the model
+(C06's `Syn.coh` / `Syn.agree`), the reference's value of the printed text is the truth of the marker. -/
+theorem print_accepted_by_ref_partial (S : LeafSpec (leafEval E) G)
+    (hL : ∀ l, G l → LeafPrintOK (leafEval E) G l) (hE : ∀ l, G l → ∃ b, l.validate E = .ok b)
+    {m : M} {t : Syn} (hg : M.Good G m) (h : M.toSyn m = some t) (hc : t.coh = true) (ha : t.agree E) :
+    Spec.Pep508.evalSyn E t = some (M.sem (leafEval E) m) := by
+  obtain ⟨_, m', h1, h2, h3⟩ := M.print_reparse S hL hg h
+  obtain ⟨b, hb1, hb2⟩ := synV_spec E t ha true
+  have hv := (compactRaw_sem E t m' h1 hc).2
+  rw [M.validate_eq_sem E m' (M.good_mono hE m' h2), hb1] at hv
+  have : b = M.sem (leafEval E) m := by rw [← h3]; exact (Except.ok.inj hv).symm
+  subst this
+  simpa [Spec.Pep508.evalSyn] using hb2
+
+/-- **Normal forms are printable**: the result of `cnf` (resp. `dnf`) over leaves that have a text is Any,
+Empty, or has a marker text — every fuel, every stack, every input marker. -/
+theorem cnf_printable {m r : M} (h : cnf fuel stk m = .ok r) (hl : M.Good Leaf.Printable r)
+    (ha : r.isAny = false) (he : r.isEmpty = false) : (M.toSyn r).isSome = true :=
+  cnf_form_printable (cnf_isCnf h) hl ha he
+
+theorem dnf_printable {m r : M} (h : dnf fuel stk m = .ok r) (hl : M.Good Leaf.Printable r)
+    (ha : r.isAny = false) (he : r.isEmpty = false) : (M.toSyn r).isSome = true :=
+  dnf_form_printable (dnf_isDnf h) hl ha he
+
+example : ∃ r, cnf 60 [] (.union [.multi [.leaf (.single Ex.sA), .leaf (.single Ex.sB)], .leaf (.single Ex.sNA)]) = .ok r ∧
+    M.Good Leaf.Printable r ∧ r.isAny = false ∧ r.isEmpty = false ∧
+    (M.toStr r).toOption = some "os_name != \"b\" or sys_platform != \"a\"" := by
+  refine ⟨.union [.leaf (.single Ex.sB), .leaf (.single Ex.sNA)], ?_, ?_, rfl, rfl, by decide +kernel⟩
+  · marker_eval [Ex.sA, Ex.sNA, Ex.sB, Ex.i1, Ex.i2, Ex.i3, Ex.i4, Ex.i5, Ex.u1, Ex.u2, Ex.u3, Ex.u4, Ex.u5]
+  · simp [Leaf.Printable, Leaf.toSyn]
+
+mutual
+/-- `(n, op, v, sw)` occurs as an item of the tree -/
+def AtomItemIn : Atom → String → String → String → Bool → Prop
+  | .item n' op' v' sw', n, op, v, sw => n' = n ∧ op' = op ∧ v' = v ∧ sw' = sw
+  | .paren m, n, op, v, sw => ItemIn m n op v sw
+def ItemIn : Syn → String → String → String → Bool → Prop
+  | .one a, n, op, v, sw => AtomItemIn a n op v sw
+  | .more a _ rest, n, op, v, sw => AtomItemIn a n op v sw ∨ ItemIn rest n op v sw
+end
+
+/-- what is not proved: the character level (the text of a grammar tree, lexed and parsed by the model of
+`markers.lark`, is that tree — items with grammar names/operators and values free of quotes, backslashes
+and newlines), and printability of `intersect`/`union` results (their "unnormalised" candidate) -/
+def C13_print_parse_full_statement : Prop :=
+  ∀ t : Syn, (∀ n op v sw, ItemIn t n op v sw → n ∈ names ∧ op ∈ ops ∧ ∀ c ∈ v.toList, c ≠ '"' ∧ c ≠ '\\' ∧ c ≠ '\n' ∧ c ≠ '\'') →
+    parseText t.text = .ok t
 
 end Poetry.C13
